@@ -85,7 +85,9 @@ func (l *patchLoader) LoadFileList(patchList string) (err error) {
 			return fmt.Errorf("load patch %q: %w", path, err)
 		}
 	}
-	return nil
+	// The scanner stops at a read error (the list is a directory, say) and
+	// at a line it cannot hold: neither is the end of the list.
+	return scanner.Err()
 }
 
 // parseAndCompile parses the given patch contents,
